@@ -83,6 +83,10 @@ def _work(item):
             summ["truth"] = trace.truth_at_result(out, pb)
         except Exception as exc:  # noqa
             summ["truth"] = {"error": type(exc).__name__ + ": " + str(exc)[:100]}
+        try:
+            summ["truth_all"] = trace.truth_all(out, pb)
+        except Exception as exc:  # noqa
+            summ["truth_all"] = {"error": type(exc).__name__ + ": " + str(exc)[:100]}
     else:
         summ["events_tail"] = out["rec"].events[-12:]
     summ["convention_errors"] = out["rec"].extra.get("convention_errors", [])
